@@ -67,7 +67,7 @@ func init() {
 	run.Props["C18"] = &run.PropSpec{ID: "C18", Level: "fault_enumeration",
 		Rule:     "one evaluation = one block driven through FinalizeBlock+Commit (error / recovered panic recorded by the driver); distinct = (height, AppHash) pairs; base histories x enumerated fault schedules (oracle outages, block-time gaps, parameter-edge governance)",
 		Monitors: func() []mon.Monitor { return []mon.Monitor{mon.NewC18(), mon.NewC18Twin()} },
-		Plan:     plan([]run.PlanItem{pi("faults", 22), pi("rewards", 2), pi("mix", 2), pi("commit-life", 2)}, []run.PlanItem{pi("faults", 66), pi("rewards", 12), pi("mix", 12), pi("commit-life", 12)}),
+		Plan:     plan([]run.PlanItem{pi("faults", 24), pi("rewards", 2), pi("mix", 2), pi("commit-life", 2)}, []run.PlanItem{pi("faults", 72), pi("rewards", 12), pi("mix", 12), pi("commit-life", 12), pi("forced", 8), pi("orders", 8)}),
 		Assume:   []string{boundsAssume}}
 	run.Props["C19"] = &run.PropSpec{ID: "C19", Level: "fault_enumeration",
 		Rule:     "one evaluation = one (replica, block) comparison of AppHash + every tx result (code, data, gas, log, events) + block events as a multiset against the primary; replicas: un-probed plain, restarted after every height, crashed between FinalizeBlock and Commit at every height; distinct = (replica, height, AppHash)",
